@@ -166,7 +166,7 @@ fn c02() -> Property {
         ],
         real_components: REAL.to_vec(),
         stub_components: STUB.to_vec(),
-        expected_probes: vec!["settling-echo-checked", "range-disposition", "non-terminal-disposition-first", "disposition-for-unknown-id", "repeated-disposition-for-settled-id", "unsettled-then-settled"],
+        expected_probes: vec!["settling-echo-checked", "range-disposition", "non-terminal-disposition-first", "disposition-for-unknown-id", "repeated-disposition-for-settled-id", "unsettled-then-settled", "range-over-already-settled-ids"],
     }
 }
 
